@@ -60,3 +60,10 @@ Theorem C01_series_flatten : forall (leaf : nat -> ez C) (a l b : list ctree),
   cspec (CSer (a ++ CSer l :: b)) leaf = cspec (CSer (a ++ l ++ b)) leaf.
 Proof. exact series_flatten. Qed.
 Print Assumptions C01_series_flatten.
+
+(* the same for a non-empty parallel connection nested directly inside a parallel connection — with every combination of open,
+   shorted and mutually cancelling branches *)
+Theorem C01_parallel_flatten : forall (leaf : nat -> ez C) (a l b : list ctree), l <> [] ->
+  cspec (CPar (a ++ CPar l :: b)) leaf = cspec (CPar (a ++ l ++ b)) leaf.
+Proof. exact parallel_flatten. Qed.
+Print Assumptions C01_parallel_flatten.
